@@ -260,10 +260,13 @@ def run_trace(ctx, harness, ops):
 def run(ctx):
     ctx.level = "proof"
     ctx.assumptions += [
-        "split_invariance is proved only as split_invariance_partial: from the explicitly named single-step commutation "
-        "hypothesis StepCommutes (one cell step of interact in a subgrid = one cell step in the undivided grid under the index "
-        "embedding, or a zero-length step) — the ray-march model of C02 is needed to discharge it; its discrete and exact parts "
-        "at the hand-over (handover_cell, handover_position) are proved; the whole statement is validated on real subgrids by the "
+        "split_invariance (Props/C03 section 7, Lemmas/SplitInvariance.lean) is proved for C02's model of interact (step, initSt) in exact "
+        "arithmetic over any linearly ordered field, for every layout/periodicity/cell contents/packet under C02's standing assumptions "
+        "(cell size > 0, direction not zero, DBL_MAX sentinel condition h < DBL_MAX*|d|, opacities >= 0, tau > 0) and a start strictly "
+        "inside the half-open box (not on the lower box face of an axis along which the packet moves down); split_invariance compares two "
+        "runs that are both over, split_invariance_halts adds: if the split run is over so is the undivided run (after a possibly "
+        "different number of steps); the converse direction (undivided over => split over) is not stated; C02's model is tied to DensitySubGrid::interact by C02's own check; "
+        "the chained model (one loop pass per chain step, hand-over as in PhotonTraversalTaskContext) is validated on real subgrids by the "
         "split-vs-unsplit tracing stream (rel 1e-10)",
         "theorems are about exact integer/field arithmetic; round-off of positions at a hand-over is only measured (trace stream)",
         "fold_once / copies_wiring assume the total number of subgrids stays below 0xffffffff (the sentinel of _copies) and "
@@ -275,6 +278,16 @@ def run(ctx):
     ]
     inc, libs = build_flags()
     gen_ok = regenerate_tables(ctx, inc, libs)
+    # Props/C03.lean (section 7) imports C02's ray-march model, whose own generated tables
+    # (Gen/TravelDirectionsC02.lean) must describe the same tree: regenerate them with C02's generator
+    # (Props/C03 proves by `decide` that both generated files agree — a stale file fails closed)
+    try:
+        import gen_c02_tables
+        _, changed02 = gen_c02_tables.generate()
+        ctx.cov["generated_tables_c02"] = {"file": "lean/CMacVerif/Gen/TravelDirectionsC02.lean", "changed_since_last_run": bool(changed02)}
+    except Exception as e:
+        ctx.broken_obligation("C02's table generator (tools/gen_c02_tables.py) failed: %r" % (e,))
+        gen_ok = False
     ok = ctx.obligations("CMacVerif.Props.C03", ["drv_c03"])
     if not gen_ok:
         ok = False
@@ -414,8 +427,10 @@ MANIFEST = dict(
     note="Trusted: Lean kernel + 3 standard axioms; the table generator (exhaustive evaluation of the real functions, three "
          "magnitudes per sign); hand model of create_subgrid/create_copies/update_original_counters tied by identical neighbour "
          "tables, _copies/_originals, get_copies ranges and fold visits on real DensitySubGridCreator<DensitySubGrid> objects (all "
-         "layouts <= 4x4x4 x 8 periodicities in thorough mode, random larger ones, copy levels 0..3).  NOT proved: the chained march "
-         "equals the undivided march (validated only: seeded packets through real split grids with copies vs a single block, per-cell "
-         "estimators rel 1e-10, same absorption/escape decisions); floating-point round-off at the hand-over; load-balancing statistics.",
+         "layouts <= 4x4x4 x 8 periodicities in thorough mode, random larger ones, copy levels 0..3); C02's model of interact (tied by C02's "
+         "check; Props/C03 proves by decide that C02's and C03's generated tables agree).  NOT proved: termination itself (a periodic box of zero "
+         "opacity never ends), the converse termination transfer (undivided over => split over); copies are not part of the march theorem (their wiring/fold "
+         "theorems + the tracing stream with copies cover them); floating-point round-off (validated: seeded packets through real split "
+         "grids with copies vs a single block, per-cell estimators rel 1e-10, same absorption/escape decisions); load-balancing statistics.",
     technique="translator by exhaustive evaluation + Lean 4 proofs (decide over generated tables; div/mod lemmas + omega for all layouts; "
               "induction over the level list for copies and fold) + differential table dumps + split-vs-unsplit tracing oracle")
